@@ -16,6 +16,8 @@ Inductive xop :=
 | XGet (k : bytes) (v : N) (o : option (bytes * N))         (* GetVersionedEntry: (value, meta); the Version field it
                                                                reports is the requested one on memtable hits and is not compared *)
 | XGetPlain (k : bytes) (o : option bytes)                  (* GetCF *)
+| XSame (k : bytes) (v : N) (before after : option (bytes * N))  (* the same read before Close and after Open *)
+| XCommit (r : rec)                                          (* a transaction committed one write; r_ver = its commit ts *)
 | XLayout (imms : list N) (l0 : list N) (lvls : list (list (list N) * list N)).
 
 Record case := { c_memid : N; c_now : N; c_ops : list xop }.
@@ -65,7 +67,7 @@ Definition set_memid (s : state) (m : N) : state :=
   {| st_mem := st_mem s; st_memid := m; st_imms := st_imms s; st_l0 := st_l0 s; st_lvls := st_lvls s; st_maxfid := N.max m (st_maxfid s) |}.
 
 (** Running state of the replay. *)
-Record acc := { a_st : state; a_ws : list rec; a_mis : bool; a_vio : bool; a_known : N }.
+Record acc := { a_st : state; a_ws : list rec; a_mis : bool; a_vio : bool; a_known : N; a_next : N }.
 
 Definition classify (spec model : option rec) (obs : option (bytes * N)) : N :=
   (* a violation the faithful model reproduces, by kind of wrong winner:
@@ -79,17 +81,18 @@ Definition classify (spec model : option rec) (obs : option (bytes * N)) : N :=
 Definition step (now : N) (a : acc) (o : xop) : acc :=
   let s := a_st a in
   match o with
-  | XPut r => {| a_st := put s r; a_ws := a_ws a ++ [r]; a_mis := a_mis a; a_vio := a_vio a; a_known := a_known a |}
+  | XPut r => {| a_st := put s r; a_ws := a_ws a ++ [r]; a_mis := a_mis a; a_vio := a_vio a; a_known := a_known a; a_next := a_next a |}
   | XRotate newid =>
       {| a_st := set_memid (set_maxfid (rotate s) (N.max (st_maxfid s) newid)) newid;
-         a_ws := a_ws a; a_mis := a_mis a; a_vio := a_vio a; a_known := a_known a |}
-  | XFlush => {| a_st := flush s; a_ws := a_ws a; a_mis := a_mis a; a_vio := a_vio a; a_known := a_known a |}
+         a_ws := a_ws a; a_mis := a_mis a; a_vio := a_vio a; a_known := a_known a; a_next := a_next a |}
+  | XFlush => {| a_st := flush s; a_ws := a_ws a; a_mis := a_mis a; a_vio := a_vio a; a_known := a_known a; a_next := a_next a |}
   | XCompact k lvl top bot added =>
-      {| a_st := compact s k lvl top bot added; a_ws := a_ws a; a_mis := a_mis a; a_vio := a_vio a; a_known := a_known a |}
+      {| a_st := compact s k lvl top bot added; a_ws := a_ws a; a_mis := a_mis a; a_vio := a_vio a; a_known := a_known a; a_next := a_next a |}
   | XReopen memid maxfid =>
       let s' := reopen s in
       {| a_st := set_maxfid s' maxfid; a_ws := a_ws a;
-         a_mis := a_mis a || negb (st_memid s' =? memid); a_vio := a_vio a; a_known := a_known a |}
+         a_mis := a_mis a || negb (st_memid s' =? memid); a_vio := a_vio a; a_known := a_known a;
+         a_next := next_ts_after_open s' |}
   | XGet k v obs =>
       let m := get s k v in
       let sp := latest_at (a_ws a) k v in
@@ -98,7 +101,7 @@ Definition step (now : N) (a : acc) (o : xop) : acc :=
       {| a_st := s; a_ws := a_ws a;
          a_mis := a_mis a || negb (obs_eqb (option_map proj m) obs);
          a_vio := a_vio a || bad;
-         a_known := if bad then (if cls =? 0 then 999 else N.max cls (a_known a)) else a_known a |}
+         a_known := if bad then (if cls =? 0 then 999 else N.max cls (a_known a)) else a_known a; a_next := a_next a |}
   | XGetPlain k obs =>
       let m := get s k max_ver in
       let sp := latest_at (a_ws a) k max_ver in
@@ -107,7 +110,18 @@ Definition step (now : N) (a : acc) (o : xop) : acc :=
       {| a_st := s; a_ws := a_ws a;
          a_mis := a_mis a || negb agree;
          a_vio := a_vio a || bad;
-         a_known := if bad then (if agree then N.max 1 (a_known a) else 999) else a_known a |}
+         a_known := if bad then (if agree then N.max 1 (a_known a) else 999) else a_known a; a_next := a_next a |}
+  | XSame k v before after =>
+      let bad := negb (obs_eqb before after) in
+      {| a_st := s; a_ws := a_ws a; a_mis := a_mis a; a_vio := a_vio a || bad;
+         a_known := if bad then 999 else a_known a; a_next := a_next a |}
+  | XCommit r =>
+      (* the commit timestamp must exceed every stored version that is not the plain-API sentinel *)
+      let stale := existsb (fun w => negb (r_ver w =? max_ver) && (r_ver r <=? r_ver w)) (a_ws a) in
+      {| a_st := put s r; a_ws := a_ws a ++ [r];
+         a_mis := a_mis a || negb (r_ver r =? a_next a);
+         a_vio := a_vio a || stale;
+         a_known := if stale then 999 else a_known a; a_next := r_ver r + 1 |}
   | XLayout imms l0 lvls =>
       let ok := nlist_eqb (map fst (st_imms s)) imms && nlist_eqb (fids (st_l0 s)) l0 &&
                 (Nat.eqb (List.length (st_lvls s)) (List.length lvls)) &&
@@ -115,12 +129,12 @@ Definition step (now : N) (a : acc) (o : xop) : acc :=
       let s' := {| st_mem := st_mem s; st_memid := st_memid s; st_imms := st_imms s; st_l0 := st_l0 s;
                    st_lvls := map (fun p => adopt (fst p) (snd p)) (combine (st_lvls s) lvls);
                    st_maxfid := st_maxfid s |} in
-      {| a_st := if ok then s' else s; a_ws := a_ws a; a_mis := a_mis a || negb ok; a_vio := a_vio a; a_known := a_known a |}
+      {| a_st := if ok then s' else s; a_ws := a_ws a; a_mis := a_mis a || negb ok; a_vio := a_vio a; a_known := a_known a; a_next := a_next a |}
   end.
 
 Definition replay (c : case) : acc :=
   fold_left (step (c_now c)) (c_ops c)
-            {| a_st := init (c_memid c); a_ws := []; a_mis := false; a_vio := false; a_known := 0 |}.
+            {| a_st := init (c_memid c); a_ws := []; a_mis := false; a_vio := false; a_known := 0; a_next := 1 |}.
 
 (** [a_known = 999] marks a violation outside every known class. *)
 Definition check (c : case) : verdict :=
@@ -132,5 +146,7 @@ Definition Rc (k : string) (ver : N) (v : string) (meta exp seq : N) : rec :=
   {| r_key := unhex k; r_ver := ver; r_val := unhex v; r_meta := meta; r_exp := exp; r_seq := seq |}.
 Definition G (k : string) (v : N) (o : option (string * N)) : xop :=
   XGet (unhex k) v (option_map (fun t => (unhex (fst t), snd t)) o).
+Definition SM (k : string) (v : N) (b a : option (string * N)) : xop :=
+  XSame (unhex k) v (option_map (fun t => (unhex (fst t), snd t)) b) (option_map (fun t => (unhex (fst t), snd t)) a).
 Definition GP (k : string) (o : option string) : xop := XGetPlain (unhex k) (option_map unhex o).
 Definition Cs (memid now : N) (ops : list xop) : case := {| c_memid := memid; c_now := now; c_ops := ops |}.
